@@ -221,6 +221,50 @@ theorem C30_only_enabled_false :
   intro h
   exact absurd (h srvB256SE opnNone _ C30_finding_none_not_enabled.1) C30_finding_none_not_enabled.2.1
 
+/-! ### renewal: second and later OpenSecureChannel requests on a connection -/
+
+/-- the first request of a connection is the one-element sequence from the fresh configuration -/
+theorem C30_seq_first (srv : SrvCfg) (o : Opn) : opnSeq srv (some freshChan) [o] = [serverOpn srv o] := by
+  unfold opnSeq opnFrom serverOpn
+  cases hr : readChunkOpn srv freshChan o with
+  | none => simp [opnSeq]
+  | some c => cases hh : handleOpen c o <;> simp [opnSeq, hh]
+
+/-- a later request is treated without looking at the enabled set either -/
+theorem C30_renew_ignores_enabled (srv srv' : SrvCfg) (c : ChanCfg) (o : Opn) :
+    opnFrom srv c o = opnFrom srv' c o := rfl
+
+/-- Whatever the connection negotiated before: a correctly secured request under any supported secure
+    policy, with any mode value, is accepted and REPLACES policy and mode of the channel. -/
+theorem C30_renew_secure_accepted (srv : SrvCfg) (c : ChanCfg) (o : Opn)
+    (hp : o.policy ≠ policyNone) (hs : supported o.policy = true) (hc : o.cert = .good)
+    (hb : o.body = .secured) (hv : o.protoVer = 0) (ht : o.authTok = 0) :
+    opnFrom srv c o = some ⟨o.policy, o.mode, .good⟩ := by
+  unfold opnFrom readChunkOpn handleOpen
+  simp [hp, hs, hc, hb, hv, ht, certUsable]
+
+/-- A request with policy None on a channel whose mode is not None is refused (the server tries to
+    verify it with the channel's symmetric keys): no renewal can downgrade a secured channel to None. -/
+theorem C30_renew_to_none_refused (srv : SrvCfg) (c : ChanCfg) (o : Opn)
+    (hp : o.policy = policyNone) (hm : c.mode ≠ modeNone) : opnFrom srv c o = none := by
+  unfold opnFrom readChunkOpn
+  simp [hp, hm]
+
+/-- finding C30.renew-switches-security: on a server that enabled only Basic256Sha256 / SignAndEncrypt a
+    channel opened with exactly that pair is switched by a renewal request to Sign, or to another
+    policy; a None / None channel is upgraded; only the switch to None is refused. -/
+theorem C30_finding_renew_switches :
+    opnSeq srvB256SE (some freshChan) [opnSecure "Basic256Sha256" 3, opnSecure "Basic256Sha256" 2] =
+      [.accept ⟨"Basic256Sha256", 3⟩, .accept ⟨"Basic256Sha256", 2⟩] ∧
+    opnSeq srvB256SE (some freshChan) [opnSecure "Basic256Sha256" 3, opnSecure "Aes128_Sha256_RsaOaep" 3] =
+      [.accept ⟨"Basic256Sha256", 3⟩, .accept ⟨"Aes128_Sha256_RsaOaep", 3⟩] ∧
+    opnSeq srvB256SE (some freshChan) [opnSecure "Basic256Sha256" 3, opnNone, opnSecure "Basic256Sha256" 3] =
+      [.accept ⟨"Basic256Sha256", 3⟩, .reject, .reject] ∧
+    opnSeq srvB256SE (some freshChan) [opnNone, opnSecure "Basic256Sha256" 3] =
+      [.accept ⟨"None", 1⟩, .accept ⟨"Basic256Sha256", 3⟩] ∧
+    classifyRenew srvB256SE ⟨"Basic256Sha256", 2⟩ = "C30.renew-switches-security" ∧
+    classifyRenew srvB256SE ⟨"Basic256Sha256", 3⟩ = "enabled" := by decide
+
 /-! ### non-vacuity -/
 
 example : serverOpn srvB256SE (opnSecure "Basic256Sha256" modeSignAndEncrypt) = .accept ⟨"Basic256Sha256", 3⟩ := by decide
